@@ -300,13 +300,16 @@ fn f_settings(l: Option<Unit>, s: Option<Unit>, m: Option<RoundingMode>, i: Opti
 fn f_round(l: Option<Unit>, s: Option<Unit>, m: Option<RoundingMode>, i: Option<u32>) -> fopt::RoundingOptions {
     fopt::RoundingOptions { largest_unit: l.map(f_unit).into(), smallest_unit: s.map(f_unit).into(), rounding_mode: m.map(fopt::RoundingMode::from).into(), increment: i.into() }
 }
-const SETTINGS: [(Option<Unit>, Option<Unit>, Option<RoundingMode>, Option<u32>); 6] = [
+const SETTINGS: [(Option<Unit>, Option<Unit>, Option<RoundingMode>, Option<u32>); 9] = [
     (None, None, None, None),
     (Some(Unit::Year), Some(Unit::Month), Some(RoundingMode::HalfEven), Some(2)),
     (Some(Unit::Hour), Some(Unit::Minute), Some(RoundingMode::Ceil), Some(15)),
     (Some(Unit::Auto), Some(Unit::Day), Some(RoundingMode::Floor), None),
     (Some(Unit::Minute), Some(Unit::Hour), None, None), // invalid: largest < smallest
     (None, Some(Unit::Second), None, Some(0)),          // invalid increment
+    (None, Some(Unit::Auto), None, None),               // invalid: auto as smallest unit (not the same as absent)
+    (Some(Unit::Auto), None, None, None),               // auto as largest unit = absent
+    (Some(Unit::Auto), Some(Unit::Auto), Some(RoundingMode::HalfExpand), Some(1)),
 ];
 
 fn f_partial_date<'a>(p: &'a (Option<i32>, Option<u8>, &'a str, Option<u8>, &'a str, Option<i32>), cal: &'a fcal::Calendar) -> fdate::PartialDate<'a> {
